@@ -294,10 +294,40 @@ def s_corpus(tier):
     yield from C.temporal_contents(("a", "E", "c"), times=(0, 2), lo=1, hi=3, max_edges=3, min_edges=1, weighted=(False,), md_styles=(0,))
 
 
+def check_dense(item, acc):
+    """sub-hypergraph centrality where the adjacency matrix has a LARGE top eigenvalue (exp() of it overflows a double): the
+    value log diag expm(A) is still an ordinary number, about lambda_max - log N; closed form for these two families"""
+    from hypergraphx import Hypergraph
+    from hypergraphx.measures.sub_hypergraph_centrality import subhypergraph_centrality
+
+    fam, n = item
+    acc.evaluations += 1
+    if fam == "one-hyperedge":
+        h = Hypergraph([tuple(range(n))])
+        pair_mult = 1  # every pair of nodes lies in one hyperedge
+    else:
+        h = Hypergraph(list(itertools.combinations(range(n), 3)))
+        pair_mult = n - 2  # complete 3-uniform: every pair lies in n-2 hyperedges
+    # A = m (J - I): eigenvalues m(n-1) once (vector 1/sqrt n) and -m (n-1 times); diag expm(A) = (e^{m(n-1)} + (n-1) e^{-m}) / n
+    top = pair_mult * (n - 1)
+    want = top + np.log((1 + (n - 1) * np.exp(-pair_mult - top)) / n)
+    w = {"kind": "dense", "family": fam, "n": n}
+    try:
+        got = np.asarray(subhypergraph_centrality(h)).reshape(-1)
+        if got.shape != (n,) or not np.isfinite(got).all() or np.abs(got - want).max() > 1e-6 * abs(want):
+            acc.violations.append(Violation("subhypergraph_centrality/large-eigenvalue", "%s on %d nodes (lambda_max %d): got %r..., log diag expm(A) = %.6f" % (fam, n, top, got[:3].tolist(), want), w, n))
+        else:
+            acc.outcomes.add(hash((fam, n)))
+    except Exception as e:
+        acc.violations.append(Violation("subhypergraph_centrality/exception", "%s on %d nodes raised %s: %s" % (fam, n, type(e).__name__, e), w, n))
+
+
 def worker(part, acc):
     for kind, item in part:
         if kind == "eig":
             check_eig(item, acc)
+        elif kind == "dense":
+            check_dense(item, acc)
         else:
             check_s(item, acc)
 
@@ -308,7 +338,8 @@ def run(ctx):
     seam_report = _validate_seams(PROP)  # real random sources under a recorder: every API reached must be modelled (else exit 2)
     sc = [("s", d) for d in s_corpus(ctx.tier)]
     eg = list(eig_items(ctx.tier))
-    items = sc + eg
+    dense = [("dense", ("one-hyperedge", n)) for n in (5, 60, 720)] + [("dense", ("complete-3-uniform", n)) for n in (5, 12, 29, 30)]
+    items = sc + eg + dense
     k = ctx.jobs * 6
     shards = [items[i::k] for i in range(k)]
     ev, nt, oc = run_e4(ctx, [it for s in shards for it in s], worker, nchunks=k)
@@ -336,6 +367,8 @@ def replay(witness, key=None):
     acc = Acc()
     if witness.get("kind") == "eig":
         check_eig((witness["n"], witness["k"], tuple(tuple(e) for e in witness["edges"]), "thorough"), acc)
+    elif witness.get("kind") == "dense":
+        check_dense((witness["family"], witness["n"]), acc)
     else:
         check_s(C.from_show(witness["desc"]), acc)
     hit = [v for v in acc.violations if key is None or v.key == key or PROP + "/" + v.key == key]
